@@ -161,17 +161,30 @@ def build_tasks(seed, tier='quick'):
                         claimed = False   # lam=0 is documented as "no smoothing" for rubberband
                     tasks.append(dict(base, kind='scalar', param=par, vclass=cls, value=_enc(val),
                                       claimed=bool(claimed and in_scope)))
+            # x orderings: the sort/inverse-sort plumbing must not get in front of the validation
+            orders = ('sorted', 'unsorted') if not two_d else ('sorted', 'x', 'z', 'both')
+
+            def vc(text, xo, pos=None):
+                text = text if xo == 'sorted' else f'{text}:x={xo}'
+                return text if pos is None else f'{text}@{pos}'
             # (b) non-finite data
             poss = ('first', 'interior', 'last') + (('first_row_last_col', 'edge_row') if two_d else ())
             for bad in ('nan', 'pos_inf', 'neg_inf'):
                 for pos in poss:
                     tasks.append(dict(base, kind='data_nonfinite', param='data', vclass=f'{bad}@{pos}',
                                       bad=bad, pos=pos, claimed=True))
+            for xo in orders[1:]:
+                for bad, pos in (('nan', 'interior'), ('pos_inf', 'last')):
+                    tasks.append(dict(base, kind='data_nonfinite', param='data', vclass=vc(bad, xo, pos),
+                                      bad=bad, pos=pos, xorder=xo, claimed=True))
             # (c) wrong data length versus x
-            for delta in ((-1, 1, 'scalar', 'extra_dim') if not two_d else
-                          ('rows-1', 'cols+1', 'transposed', 'one_d')):
-                tasks.append(dict(base, kind='data_length', param='data', vclass=f'len:{delta}',
-                                  delta=delta, claimed=True))
+            for xo in orders:
+                for delta in ((-1, 1, 17, 'empty', 'scalar', 'extra_dim') if not two_d else
+                              ('rows-1', 'cols+1', 'rows+5', 'transposed', 'empty', 'one_d')):
+                    if xo != 'sorted' and delta in ('scalar', 'extra_dim', 'one_d'):
+                        continue
+                    tasks.append(dict(base, kind='data_length', param='data', vclass=vc(f'len:{delta}', xo),
+                                      delta=delta, xorder=xo, claimed=True))
             # (d) per-point arrays
             for par in params:
                 if par not in ('weights', 'alpha'):
@@ -179,15 +192,15 @@ def build_tasks(seed, tier='quick'):
                 if par == 'alpha' and name not in ('aspls', 'pspline_aspls'):
                     continue   # jbcd's alpha is a scalar regularisation parameter
                 numeric = not (par == 'weights' and module == 'classification')
-                if name == 'adaptive_minmax' and par == 'weights':
-                    pass
-                for delta in ((-1, 1) if not two_d else ('rows-1', 'cols+1', 'transposed')):
-                    tasks.append(dict(base, kind='array_length', param=par, vclass=f'len:{delta}',
-                                      delta=delta, claimed=True))
-                for bad in ('nan', 'pos_inf', 'neg_inf'):
-                    for pos in ('first', 'interior', 'last'):
-                        tasks.append(dict(base, kind='array_nonfinite', param=par, vclass=f'{bad}@{pos}',
-                                          bad=bad, pos=pos, claimed=numeric))
+                for xo in orders:
+                    for delta in ((-1, 1, 17, 'empty') if not two_d else
+                                  ('rows-1', 'cols+1', 'rows+5', 'transposed', 'empty')):
+                        tasks.append(dict(base, kind='array_length', param=par, vclass=vc(f'len:{delta}', xo),
+                                          delta=delta, xorder=xo, claimed=True))
+                    for bad in ('nan', 'pos_inf', 'neg_inf'):
+                        for pos in ('first', 'interior', 'last'):
+                            tasks.append(dict(base, kind='array_nonfinite', param=par, vclass=vc(bad, xo, pos),
+                                              bad=bad, pos=pos, xorder=xo, claimed=numeric))
             # (e) unknown method name
             if 'method' in params:
                 for bogus in ('not_a_method', 'asls_', ''):
@@ -256,6 +269,21 @@ def run_task(t):
     from pybaselines import Baseline, Baseline2D
     two_d = t['dim'] == '2d'
     x, z, y = base_data(t['seed'], two_d)
+    xo = t.get('xorder', 'sorted')
+    if xo != 'sorted':
+        prng = np.random.default_rng(t['seed'] + 7)
+        if not two_d or xo in ('x', 'both'):
+            px = prng.permutation(len(x))
+            if np.array_equal(px, np.arange(len(x))):
+                px = px[::-1]
+            x = x[px]
+            y = y[px]
+        if two_d and xo in ('z', 'both'):
+            pz = prng.permutation(len(z))
+            if np.array_equal(pz, np.arange(len(z))):
+                pz = pz[::-1]
+            z = z[pz]
+            y = y[:, pz]
     name = t['method']
     kind = t['kind']
     with warnings.catch_warnings():
@@ -278,11 +306,15 @@ def run_task(t):
                         yy = 3.0
                     elif d == 'extra_dim':
                         yy = np.vstack([y, y, y])
+                    elif d == 'empty':
+                        yy = np.array([])
                     elif d < 0:
                         yy = y[:d]
                     else:
                         yy = np.concatenate([y, y[:d]])
-                    if name == 'collab_pls' and d not in ('scalar', 'extra_dim'):
+                    if name == 'collab_pls' and d == 'empty':
+                        Baseline(x).collab_pls(np.empty((2, 0)), **M.call_kwargs(name))
+                    elif name == 'collab_pls' and d not in ('scalar', 'extra_dim'):
                         # the data set of collab_pls is (M, N): wrong N
                         fit = Baseline(x)
                         fit.collab_pls(np.vstack([yy, yy]), **M.call_kwargs(name))
@@ -299,6 +331,10 @@ def run_task(t):
                         yy = np.hstack([y, y[:, :1]])
                     elif d == 'transposed':
                         yy = y.T.copy()
+                    elif d == 'rows+5':
+                        yy = np.vstack([y, y[:5]])
+                    elif d == 'empty':
+                        yy = np.empty((0, y.shape[1]))
                     else:
                         yy = y.ravel()
                     if name == 'collab_pls':
@@ -309,8 +345,12 @@ def run_task(t):
                 arr = np.ones_like(y)
                 if kind == 'array_length':
                     d = t['delta']
-                    if not two_d:
+                    if d == 'empty':
+                        arr = np.array([])
+                    elif not two_d:
                         arr = arr[:d] if d < 0 else np.concatenate([arr, arr[:d]])
+                    elif d == 'rows+5':
+                        arr = np.vstack([arr, arr[:5]])
                     elif d == 'rows-1':
                         arr = arr[:-1]
                     elif d == 'cols+1':
